@@ -221,14 +221,7 @@ def t_bingham(sess, axis):
 
 def sym_sqrt_apps(p):
     """(name, (argument term, result term)) of the sqrt applications made on this path."""
-    out = []
-    for c in p.pc:
-        # axiom shape: And(r >= 0, r*r == x)
-        if z3.is_and(c) and c.num_args() == 2:
-            a, b = c.children()
-            if z3.is_eq(b) and z3.is_ge(a) and str(a.children()[0]).startswith("sqrt!"):
-                out.append((str(a.children()[0]), (b.children()[1], a.children()[0])))
-    return out
+    return [(str(r), (args[0], r)) for args, r, _ in p.uf_apps.get("sqrt", [])]
 
 
 def t_coaxial(sess):
